@@ -268,6 +268,12 @@ fn c12_gate_case(seed: u64, trace: bool) -> CaseOut {
                 }
             }
         }
+        if !msgs.is_empty() {
+            let d = super::c02::diag(&ran.w);
+            for m in msgs.iter_mut() {
+                m.push_str(&format!(";{d}"));
+            }
+        }
         for m in msgs {
             ran.w.mon.violate("C12", m);
         }
